@@ -123,6 +123,8 @@ def getattr_(ev: Ev, base, attr, node):
         if isinstance(o, Obj):
             if attr in o.fields:
                 return o.fields[attr]
+            if attr == "__class__":
+                return VClass(o.cls)      # (the declared class of the object: subclasses are not modelled)
             # property / method / class attribute of a repo class
             r = ev.registry.resolve_attr(ev, base, o, attr, node) if ev.registry else None
             if r is not None:
@@ -134,6 +136,8 @@ def getattr_(ev: Ev, base, attr, node):
             return VStr("/")      # POSIX (A-posix)
         return VGlobal(base.name + "." + attr)
     if isinstance(base, VClass):
+        if attr == "__name__":
+            return VStr(base.name.split(":")[-1])
         if ":" in base.name:
             rel, cn = base.name.split(":")
             rc = source.resolve_class(rel, cn)
